@@ -78,6 +78,13 @@ def seqPackets (pid : Nat) (letters : List Nat) : List Packet :=
 
 def digits (base len n : Nat) : List Nat := (List.range len).map fun i => n / base ^ i % base
 
+/-- the packet after a gap announces a discontinuity: counters are then allowed to jump, so the continuity counter
+cannot reveal the gap (outside the loss clause) -/
+def gapHiddenByDI (ps : List Packet) (lastDropped pid : Nat) : Bool :=
+  match (ps.drop (lastDropped + 1)).find? (fun q => q.header.pid == pid && q.header.hasPayload) with
+  | some q => pktDI q
+  | none => false
+
 def run (t : Tier) : Emit Unit := do
   for i in [0:(if t.quick then 6 else 40)] do
     let m ← liftGen (genStream { pesPIDs := [0x100, 0x101], pmtPIDs := if i % 2 = 0 then [0x1000] else [], dvb := i % 3 = 0,
@@ -110,6 +117,7 @@ def run (t : Tier) : Emit Unit := do
       let later := (ps.drop (k + 1)).any fun q => q.header.pid == p.header.pid && q.header.hasPayload
       if !later then continue
       let pid := p.header.pid
+      if gapHiddenByDI ps k pid then continue
       let ord := ((ps.take k).filter (·.header.pid == pid)).length
       let us := m.units.filter (·.pid == pid)
       let ui := unitOfOrdinal us ord
@@ -137,6 +145,7 @@ def run (t : Tier) : Emit Unit := do
       let uLast := unitOfOrdinal us (start + len - 1)
       let maxMissing := (((List.range (uLast + 1 - uFirst + 1)).map fun j => (us.getD (uFirst + j - 1) default).data.length).sum)
       let lastDropped := drop.getLast?.getD 0
+      if gapHiddenByDI ps lastDropped pid then continue
       let isPSIb := (us.getD uLast default).psi
       let clsB := if looksLikeUnit (fragmentAfter ps lastDropped) isPSIb then "headless-fragment-looks-like-unit" else ""
       let c := demuxCase (bytesOf del) { view := .perpid, noErr := true } none none "loss-burst" clsB "loss"
@@ -172,6 +181,7 @@ def run (t : Tier) : Emit Unit := do
         let drop := (idxs.drop start).take len
         let del := (ps.zipIdx.filter fun (_, i) => !drop.contains i).map (·.1)
         let lastDropped := drop.getLast?.getD 0
+        if gapHiddenByDI ps lastDropped 0x100 then continue
         let clsB := if looksLikeUnit (fragmentAfter ps lastDropped) false then "headless-fragment-looks-like-unit" else ""
         let c := demuxCase (bytesOf del) { view := .perpid, noErr := true } none none "loss-burst-every-length" clsB "loss"
         emit "C06" { c with args := c.args ++ [("expect", jstr (jesc expAllL)), ("faultPids", jarr [jnat 0x100]), ("maxMissing", jnat 1)] }
@@ -200,6 +210,7 @@ def run (t : Tier) : Emit Unit := do
     let nA := a.chunks.length
     for j in [0:idxs.length - 1] do
       let k := idxs.getD j 0
+      if gapHiddenByDI ps k pidSI then continue
       let del := ps.take k ++ ps.drop (k + 1)
       let isFirstOfUnit := j = 0 || j = nA
       let clsS := if looksLikeUnit (fragmentAfter ps k) true then "headless-fragment-looks-like-unit" else ""
